@@ -388,3 +388,231 @@ def _run(case, cl):
 
 def classify(case, v):
     return v.kind
+
+
+# ==========================================================================
+# secondary part: the bundled Redis managers against a fake redis module
+
+class _StopScript(BaseException):
+    pass
+
+
+def _redis_case_st():
+    msg = st.sampled_from(['good', 'good', 'other_channel', 'subscribe',
+                           'nodata'])
+    seg = st.fixed_dictionaries({
+        'msgs': st.lists(msg, max_size=4),
+        'end': st.sampled_from(['error', 'error', 'eof']),
+        'subscribe_fails': st.integers(0, 8)})
+    return st.fixed_dictionaries({
+        'part': st.just('redis'), 'aio': st.booleans(),
+        'segments': st.lists(seg, min_size=1, max_size=6),
+        'publish': st.lists(st.booleans(), min_size=2, max_size=2)})
+
+
+_main_strategy = strategy
+_main_check = check_case
+
+
+def strategy(tier):         # noqa: F811
+    return st.one_of(_main_strategy(tier), _main_strategy(tier),
+                     _main_strategy(tier), _redis_case_st())
+
+
+def check_case(case):       # noqa: F811
+    if case.get('part') == 'redis':
+        return _check_redis(case)
+    return _main_check(case)
+
+
+def _check_redis(case):
+    import types
+    from .. import core
+    core.bootstrap()
+    aio = case['aio']
+    state = {'seg': 0, 'sub_fail_left': 0, 'n': 0, 'sleeps': [],
+             'connects': 0, 'publish_calls': 0}
+    segs = case['segments']
+
+    class RedisError(Exception):
+        pass
+
+    def mk_msg(kind, n):
+        if kind == 'good':
+            return {'channel': b'socketio', 'type': 'message',
+                    'data': b'm%d' % n}
+        if kind == 'other_channel':
+            return {'channel': b'other', 'type': 'message',
+                    'data': b'x%d' % n}
+        if kind == 'subscribe':
+            return {'channel': b'socketio', 'type': 'subscribe',
+                    'data': 1}
+        return {'channel': b'socketio', 'type': 'message'}
+
+    expected = []
+
+    def next_segment():
+        if state['seg'] >= len(segs):
+            raise _StopScript()
+        s = segs[state['seg']]
+        state['seg'] += 1
+        return s
+
+    class PubSub:
+        def __init__(self, first):
+            self.first = first
+
+        def _subscribe(self, ch):
+            if not self.first and state['sub_fail_left'] > 0:
+                state['sub_fail_left'] -= 1
+                raise RedisError('cannot subscribe')
+
+        def _listen_items(self):
+            s = next_segment()
+            for kind in s['msgs']:
+                state['n'] += 1
+                m = mk_msg(kind, state['n'])
+                if kind == 'good':
+                    expected.append(m['data'])
+                yield m
+            if s['end'] == 'error':
+                nxt = segs[state['seg']] if state['seg'] < len(segs) else None
+                state['sub_fail_left'] = nxt['subscribe_fails'] if nxt else 0
+                raise RedisError('connection lost')
+        if aio:
+            async def subscribe(self, ch):
+                self._subscribe(ch)
+
+            async def unsubscribe(self, ch):
+                pass
+
+            async def listen(self):
+                for m in self._listen_items():
+                    yield m
+        else:
+            def subscribe(self, ch):
+                self._subscribe(ch)
+
+            def unsubscribe(self, ch):
+                pass
+
+            def listen(self):
+                yield from self._listen_items()
+
+    class Redis:
+        first = True
+
+        @classmethod
+        def from_url(cls, url, **kw):
+            state['connects'] += 1
+            r = cls()
+            r.is_first = Redis.first
+            Redis.first = False
+            return r
+
+        def pubsub(self, ignore_subscribe_messages=False):
+            return PubSub(self.is_first)
+
+        def _publish(self, ch, data):
+            i = state['publish_calls']
+            state['publish_calls'] += 1
+            if i < len(case['publish']) and case['publish'][i]:
+                raise RedisError('cannot publish')
+            return 1
+        if aio:
+            async def publish(self, ch, data):
+                return self._publish(ch, data)
+        else:
+            def publish(self, ch, data):
+                return self._publish(ch, data)
+
+    fake = types.SimpleNamespace(
+        Redis=Redis, exceptions=types.SimpleNamespace(RedisError=RedisError))
+    got = []
+    stopped = [False]
+    if aio:
+        import socketio.async_redis_manager as M
+        from ..detloop import DetLoop
+        saved = (M.aioredis, M.RedisError)
+        M.aioredis, M.RedisError = fake, RedisError
+        loop = DetLoop()
+        try:
+            mgr = M.AsyncRedisManager('redis://', channel='socketio')
+
+            async def consume():
+                try:
+                    async for d in mgr._listen():
+                        got.append(d)
+                except _StopScript:
+                    stopped[0] = True
+            t = loop.spawn(consume())
+            last = loop.time()
+            for _ in range(400):
+                loop.run_until_idle()
+                if t.done():
+                    break
+                nt = loop.next_timer()
+                if nt is None:
+                    break
+                state['sleeps'].append(round(nt - loop.time(), 6))
+                loop.advance()
+            if not t.done():
+                raise Violation('redis-listen-stuck', '')
+            if t.exception() is not None:
+                raise Violation('redis-listen-raised', repr(t.exception()))
+            before = state['publish_calls']
+            r = loop.run(mgr._publish({'method': 'emit'}))
+        finally:
+            M.aioredis, M.RedisError = saved
+            loop.shutdown()
+    else:
+        import socketio.redis_manager as M
+        saved = (M.redis, M.time)
+        M.redis = fake
+        M.time = types.SimpleNamespace(
+            sleep=lambda s: state['sleeps'].append(s), time=saved[1].time)
+        try:
+            mgr = M.RedisManager('redis://', channel='socketio')
+            try:
+                for d in mgr._listen():
+                    got.append(d)
+            except _StopScript:
+                stopped[0] = True
+            before = state['publish_calls']
+            r = mgr._publish({'method': 'emit'})
+        finally:
+            M.redis, M.time = saved
+    if not stopped[0]:
+        raise Violation('redis-listener-ended-by-itself',
+                        'the listen loop returned before the script ended')
+    if got != expected:
+        raise Violation('redis-messages-lost-or-reordered',
+                        '%r != %r' % (got, expected))
+    # back-off model: 1, 2, 4 .. capped at 60, reset after a successful
+    # re-subscribe
+    want = []
+    retry = 1
+    for i, s in enumerate(segs):
+        if s['end'] != 'error':
+            continue
+        want.append(retry)
+        retry = min(retry * 2, 60)
+        nxt = segs[i + 1] if i + 1 < len(segs) else None
+        if nxt is None:
+            break
+        for _ in range(nxt['subscribe_fails']):
+            want.append(retry)
+            retry = min(retry * 2, 60)
+        retry = 1
+    sl = [float(x) for x in state['sleeps']]
+    if sl[:len(want)] != [float(x) for x in want] or len(sl) > len(want) + 1:
+        raise Violation('redis-backoff', 'sleeps %r expected %r'
+                        % (sl, want))
+    calls = state['publish_calls'] - before
+    pf = case['publish']
+    want_calls = 1 if not pf[0] else 2
+    if calls != want_calls:
+        raise Violation('redis-publish-retry', '%d calls, expected %d'
+                        % (calls, want_calls))
+    return {'part': 'redis', 'aio': aio,
+            'nontrivial': len([s for s in segs if s['end'] == 'error']) >= 2}
